@@ -1174,29 +1174,31 @@ class FS(object):
         """
         _src_path = self.validatepath(src_path)
         _dst_path = self.validatepath(dst_path)
-        if not overwrite and self.exists(_dst_path):
-            raise errors.DestinationExists(dst_path)
-        if self.getinfo(_src_path).is_dir:
-            raise errors.FileExpected(src_path)
-        if _src_path == _dst_path:
-            # early exit when moving a file onto itself
-            return
-        if self.getmeta().get("supports_rename", False):
-            try:
-                src_sys_path = self.getsyspath(_src_path)
-                dst_sys_path = self.getsyspath(_dst_path)
-            except errors.NoSysPath:  # pragma: no cover
-                pass
-            else:
+        # the checks and the transfer are one step with respect to the other
+        # users of this filesystem object
+        with self._lock:
+            if not overwrite and self.exists(_dst_path):
+                raise errors.DestinationExists(dst_path)
+            if self.getinfo(_src_path).is_dir:
+                raise errors.FileExpected(src_path)
+            if _src_path == _dst_path:
+                # early exit when moving a file onto itself
+                return
+            if self.getmeta().get("supports_rename", False):
                 try:
-                    os.rename(src_sys_path, dst_sys_path)
-                except OSError:
+                    src_sys_path = self.getsyspath(_src_path)
+                    dst_sys_path = self.getsyspath(_dst_path)
+                except errors.NoSysPath:  # pragma: no cover
                     pass
                 else:
-                    # a renamed file keeps its modification time, and the source
-                    # no longer exists: there is nothing to copy
-                    return
-        with self._lock:
+                    try:
+                        os.rename(src_sys_path, dst_sys_path)
+                    except OSError:
+                        pass
+                    else:
+                        # a renamed file keeps its modification time, and the source
+                        # no longer exists: there is nothing to copy
+                        return
             with self.open(_src_path, "rb") as read_file:
                 # FIXME(@althonos): typing complains because open return IO
                 self.upload(_dst_path, read_file)  # type: ignore
